@@ -144,8 +144,21 @@ class C14(Prop):
         longer["cols"][0]["values"].append({"i": 3})
         empty = copy.deepcopy(base)
         empty["cols"][0]["values"] = []
-        return [{"a": base, "b": longer, "mut": "row_add"}, {"a": empty, "b": base, "mut": "empty_vs_full"},
-                {"a": base, "b": base, "mut": "identity"}]
+        out = [{"a": base, "b": longer, "mut": "row_add"}, {"a": empty, "b": base, "mut": "empty_vs_full"},
+               {"a": base, "b": base, "mut": "identity"}]
+        # integers beyond float precision next to a float column (a frame of only int64 and float64 columns becomes one
+        # float block under to_numpy()): tables differing by one in such an integer
+        for k, big in enumerate([2**53, 2**53 + 2, 2**60, -(2**53), 2**62, 2**53 + 4]):
+            for other in (["float"], ["float", "float"], []):
+                cols = [{"name": "n", "unit": "-", "kind": "int", "values": [{"i": 1}, {"i": big}]}]
+                cols += [{"name": f"f{j}", "unit": "m", "kind": "float", "values": [{"f": (1.5).hex()}, {"f": (2.5).hex()}]}
+                         for j, _ in enumerate(other)]
+                a = {"name": "t", "dests": ["a"], "transposed": False, "cols": cols}
+                b = copy.deepcopy(a)
+                b["cols"][0]["values"][1] = {"i": big + 1}
+                out.append({"a": a, "b": b, "mut": "cell"})
+                out.append({"a": a, "b": copy.deepcopy(a), "mut": "identity"})
+        return out
 
     def generate(self, rng, tier):
         n = 1200 if tier == "quick" else 15000
